@@ -2,6 +2,134 @@
 
 package mimetype
 
-func (g *vfGen) runMore4(slice string) bool { return false }
+import (
+	"encoding/hex"
+	"fmt"
+	"strconv"
+)
 
-func vfExecMore4(f []string, op string) (string, bool) { return "", false }
+func vfExecMore4(f []string, op string) (string, bool) {
+	switch f[0] {
+	case "mono": // mono hex L1 L2   (0 = unlimited)
+		data := vfUnhex(f[1])
+		l1, _ := strconv.ParseUint(f[2], 10, 32)
+		l2, _ := strconv.ParseUint(f[3], 10, 32)
+		SetLimit(uint32(l1))
+		a := Detect(data)
+		SetLimit(uint32(l2))
+		b := Detect(data)
+		return fmt.Sprintf("%s => %s %s", op, vfChain(a), vfChain(b)), true
+	}
+	return vfExecMore5(f, op)
+}
+
+func (g *vfGen) runMore4(slice string) bool {
+	switch slice {
+	case "C17":
+		g.genC17()
+	default:
+		return g.runMore5(slice)
+	}
+	return true
+}
+
+// literal pool: every byte-string literal of internal/magic and every prefix of it
+func (g *vfGen) literalPool() [][]byte {
+	fx := vfLoadFacts()
+	var pool [][]byte
+	for _, n := range vfDetNames() {
+		for _, s := range fx.Signatures[n] {
+			b, _ := hex.DecodeString(s)
+			pool = append(pool, b)
+		}
+	}
+	return pool
+}
+
+func (g *vfGen) genC17() {
+	pool := g.literalPool()
+	var heads [][]byte
+	for _, c := range vfCorpus() {
+		if len(c) > 4096 {
+			c = c[:4096]
+		}
+		heads = append(heads, c)
+	}
+	// also the bare signatures themselves
+	for _, p := range pool {
+		if len(p) >= 2 {
+			heads = append(heads, p)
+		}
+	}
+	// directed: the literals of the root-level check that accepts the head (and of its
+	// neighbours in the same source file are in the pool) appended whole and cut
+	fx := vfLoadFacts()
+	names := vfDetNames()
+	for _, h := range heads {
+		var own [][]byte
+		for _, n := range names {
+			d := vfDetectorByName(n)
+			if d == nil || len(fx.Signatures[n]) == 0 || vfSafeDet(d, h, 0) != "T" {
+				continue
+			}
+			for _, s := range fx.Signatures[n] {
+				b, _ := hex.DecodeString(s)
+				own = append(own, b)
+			}
+		}
+		if len(own) > 24 {
+			g.rng.Shuffle(len(own), func(i, j int) { own[i], own[j] = own[j], own[i] })
+			own = own[:24]
+		}
+		for _, lit := range own {
+			for _, gap := range []int{0, g.rng.Intn(40), 600} {
+				data := append(append(append([]byte{}, h...), make([]byte, gap)...), lit...)
+				data = append(data, 'x', 'y')
+				g.emit(vfOp("mono", data, len(h), 0))
+				g.emit(vfOp("mono", data, len(h), len(data)))
+			}
+		}
+	}
+	reps := g.pick(6, 60)
+	for _, h := range heads {
+		for r := 0; r < reps; r++ {
+			var suf []byte
+			switch g.rng.Intn(5) {
+			case 0:
+				suf = g.bytes(g.rng.Intn(64))
+			case 1:
+				lit := pool[g.rng.Intn(len(pool))]
+				k := g.rng.Intn(len(lit) + 1)
+				suf = append(g.bytes(g.rng.Intn(8)), lit[:k]...)
+			case 2:
+				lit := pool[g.rng.Intn(len(pool))]
+				suf = append(append(g.bytes(g.rng.Intn(600)), lit...), g.bytes(g.rng.Intn(40))...)
+			case 3:
+				suf = make([]byte, g.rng.Intn(700))
+			default:
+				suf = g.textBytes(g.rng.Intn(200))
+			}
+			data := append(append([]byte{}, h...), suf...)
+			// L1: somewhere inside or at the end of the original header; L2 larger, or unlimited
+			l1 := len(h)
+			if len(h) > 1 && g.rng.Intn(3) == 0 {
+				l1 = 1 + g.rng.Intn(len(h))
+			}
+			var l2 int
+			switch g.rng.Intn(4) {
+			case 0:
+				l2 = 0
+			case 1:
+				l2 = l1 + 1
+			case 2:
+				l2 = l1 + 1 + g.rng.Intn(len(suf)+2)
+			default:
+				l2 = len(data) + g.rng.Intn(3)
+			}
+			if l1 == 0 {
+				continue
+			}
+			g.emit(vfOp("mono", data, l1, l2))
+		}
+	}
+}
